@@ -83,7 +83,7 @@ def _gen_adv_key(rng, shape, gen_slice, grow):
     return es
 
 
-def _gen_mat_elem(rng, d, gen_slice, allow_list=True, oor=False, neg=True):
+def _gen_mat_elem(rng, d, gen_slice, allow_list=True, oor=False, neg=True, rep=True):
     r = rng.random()
     if oor:
         return ["i", d + rng.randrange(2)]
@@ -92,7 +92,10 @@ def _gen_mat_elem(rng, d, gen_slice, allow_list=True, oor=False, neg=True):
         return ["i", z - d if (neg and rng.random() < 0.2) else z]
     if r < 0.8 or not allow_list:
         return gen_slice(rng, d, False)
-    return ["l", rng.sample(range(d), rng.randint(1, min(d, 3)))]
+    l = rng.sample(range(d), rng.randint(1, min(d, 3)))
+    if rep and rng.random() < 0.3:      # an index named twice
+        l.insert(rng.randint(0, len(l)), rng.choice(l))
+    return ["l", l]
 
 
 def _partition(rng, n):
@@ -100,6 +103,88 @@ def _partition(rng, n):
     rng.shuffle(modes)
     k = rng.randint(0, n)
     return modes[:k], modes[k:]
+
+
+TENMAT_MK = ["C", "direct_C", "direct_C_nocopy", "direct_F_nocopy", "direct_view", "from_read"]
+SPTENMAT_MK = ["nocopy", "direct", "direct_rev", "direct_view", "computed"]
+RV_MAT = ["C", "view", "int", "list"]
+
+
+def _mat_positions(tshape, rd, cd, subs):
+    """(row, col) of tensor subscripts under the mode split (rd, cd): first listed mode fastest"""
+    out = []
+    for p in subs:
+        i = j = 0
+        m = 1
+        for k in rd:
+            i += p[k] * m
+            m *= tshape[k]
+        m = 1
+        for k in cd:
+            j += p[k] * m
+            m *= tshape[k]
+        out.append((i, j))
+    return out
+
+
+def _apply(cur, shape, op):
+    try:
+        st2, _ = U.spec_step((tuple(shape), dict(cur)), op)
+        return dict(st2[1]) if st2[0] == tuple(shape) else cur
+    except U.Inadmissible:
+        return cur
+
+
+def _zero_stored_op(rng, shape, cur, val):
+    """an assignment that writes zero onto stored entries — alone, together with other stored entries, together with new
+    entries (zero or nonzero) — both sides of every "was anything appended / anything left" switch"""
+    r, c = shape
+    stored = sorted(cur)
+    i, j = rng.choice(stored)
+    kind = rng.randrange(6)
+    if kind == 0:               # exactly one stored entry := 0, nothing new
+        return ["set", ["region", [["i", i], ["i", j]]], ["scalar", 0]]
+    if kind == 1:               # all stored entries of one column (no unstored position addressed): zeros and nonzeros mixed
+        rows = [a for a, b in stored if b == j]
+        rng.shuffle(rows)
+        vs = [val(rng, 0.6) for _ in rows]
+        vs[0] = 0
+        return ["set", ["region", [["l", rows], ["i", j]]], ["values", vs]]
+    if kind == 2:               # one row: zeros on the stored entries, nonzeros on (some of) the unstored ones
+        vs = [0 if (i, b) in cur else val(rng, 0.3) for b in range(c)]
+        return ["set", ["region", [["i", i], ["s", None, None, None]]], ["values", vs]]
+    if kind == 3:               # one column: zeros everywhere (stored and unstored positions)
+        return ["set", ["region", [["s", None, None, None], ["i", j]]], ["scalar", 0]]
+    if kind == 4:               # every stored entry := 0 one call (whole matrix), ends with no entry at all
+        return ["set", ["region", [["s", 0, r, None], ["s", 0, c, None]]], ["scalar", 0]]
+    rows = [a for a, b in stored if b == j]      # the stored entries of one column keep / change their values, no zero
+    return ["set", ["region", [["l", rows], ["i", j]]], ["values", [val(rng, 0.0) for _ in rows]]]
+
+
+def _decorate_tenmat(rng, shape, data, tshape, rd, cd, ops):
+    """layout variants of value right-hand sides, and values that are the array returned by the read just before"""
+    import c04_w3 as W
+    out = []
+    cur = {p: v for p, v in zip(_mat_positions(tshape, rd, cd, tgen.all_subs(tshape)), data) if v != 0}
+    for op in ops:
+        if op[0] == "set":
+            try:
+                ks = U.kept_shape_of(tuple(shape), op[1])
+                U.resolve_set(tuple(shape), op[1], op[2])
+            except U.Inadmissible:
+                ks = None
+            if ks and rng.random() < 0.3:
+                es = W._same_kept_src(rng, shape, ks)
+                if es is not None and not U.key_is_a16(["region", es]):
+                    src = ["get", ["region", es]]
+                    vals = U.spec_step((tuple(shape), cur), src)[1][1]
+                    out.append(src)
+                    op = ["set", op[1], ["values", list(vals)], "prev"]
+            elif ks and op[2][0] == "values" and rng.random() < 0.6:
+                op = op + [rng.choice(RV_MAT)]
+        out.append(op)
+        cur = _apply(cur, shape, op)
+    ops[:] = out
 
 
 def gen_cases_extra(rng, tier, gen_slice, val):
@@ -124,34 +209,57 @@ def gen_cases_extra(rng, tier, gen_slice, val):
             r, c = math.prod(tshape[m] for m in rd), math.prod(tshape[m] for m in cd)
             data = tgen.rand_dense(rng, tshape, rng.choice([0.0, 0.4, 0.9]))
             subs, vals = tgen.dense_to_sparse(tshape, data, rng, rng.choice(["random", "sorted", "reversed"]))
+            # C04-N08 / C04-N09 are repaired: zero values, negative and out-of-range subscripts are ordinary inputs now
             profile = "plain"
-            if kind == "sptenmat_set" and q % 7 == 5:
-                profile = "C04-N08"
-            if kind == "sptenmat_set" and q % 7 == 6:
-                profile = "C04-N09"
+            if kind == "sptenmat_set" and q % 3 == 2:
+                profile = "zero_stored"
+            cur = None
+            if kind == "sptenmat_set":
+                cur = {tuple(p): v for p, v in zip(_mat_positions(tshape, rd, cd, subs), vals)}
             ops = []
             for k in range(rng.randint(1, 5)):
-                bad = (kind == "tenmat_rw" and rng.random() < 0.08) or (profile == "C04-N09" and k == 0 and rng.random() < 0.5)
+                if profile == "zero_stored" and cur:
+                    op = _zero_stored_op(rng, (r, c), cur, val)
+                    if op is not None:
+                        ops.append(op)
+                        cur = _apply(cur, (r, c), op)
+                        continue
+                bad = rng.random() < 0.08
                 which = rng.randrange(2)
                 lists_ok = kind == "sptenmat_set"
-                e0 = _gen_mat_elem(rng, r, gen_slice, True, bad and which == 0, neg=(kind == "tenmat_rw" or profile == "C04-N09"))
-                e1 = _gen_mat_elem(rng, c, gen_slice, lists_ok or e0[0] != "l", bad and which == 1,
-                                   neg=(kind == "tenmat_rw" or profile == "C04-N09"))
+                # open finding C04-N14 (sptenmat + repeated index): only in its own, attributed profile
+                rep = kind == "tenmat_rw" or q % 9 == 4
+                e0 = _gen_mat_elem(rng, r, gen_slice, True, bad and which == 0, neg=True, rep=rep)
+                e1 = _gen_mat_elem(rng, c, gen_slice, lists_ok or e0[0] != "l", bad and which == 1, neg=True, rep=rep)
                 key = ["region", [e0, e1]]
                 if kind == "tenmat_rw" and rng.random() < 0.45:
                     ops.append(["get", key])
                     continue
-                zero_p = 0.35 if (kind == "tenmat_rw" or profile == "C04-N08") else 0.0
+                zero_p = 0.35
                 try:
                     _, asg = U.resolve_set((r, c), key, ["scalar", 1])
                     npos = len(asg)
                 except U.Inadmissible:
                     npos = 0
+                if kind == "sptenmat_set" and q % 9 == 4 and key[1][0][0] == "l" and not U.key_repeats(key):
+                    key[1][0][1].append(key[1][0][1][0])
+                    try:
+                        npos = len(U.resolve_set((r, c), key, ["scalar", 1])[1])
+                    except U.Inadmissible:
+                        npos = 0
+                if kind == "sptenmat_set" and U.key_repeats(key):
+                    profile = "C04-N14"
                 if npos and rng.random() < 0.5:
                     ops.append(["set", key, ["values", [val(rng, zero_p) for _ in range(npos)]]])
                 else:
                     ops.append(["set", key, ["scalar", val(rng, zero_p)]])
+                if cur is not None:
+                    cur = _apply(cur, (r, c), ops[-1])
+            if kind == "tenmat_rw":
+                _decorate_tenmat(rng, (r, c), data, tshape, rd, cd, ops)
             args = {"tshape": list(tshape), "rdims": rd, "cdims": cd, "ops": ops}
+            if rng.random() < 0.5:
+                args["mk"] = rng.choice(TENMAT_MK if kind == "tenmat_rw" else SPTENMAT_MK)
             if kind == "tenmat_rw":
                 args["data"] = data
             else:
@@ -173,14 +281,72 @@ def _obs_mat_out(np, a):
     return ["dense", [int(d) for d in arr.shape], [tgen.exact(x) for x in arr.ravel(order="F")]]
 
 
-def _mat_rhs(np, shape2, key, rhs, column):
+def _mat_rhs(np, shape2, key, rhs, column, variant=None):
     if rhs[0] == "scalar":
         return float(rhs[1])
     vals = [float(v) for v in rhs[1]]
     if column:
         return np.array(vals, dtype=float).reshape((len(vals), 1))
     ks = U.kept_shape_of(tuple(shape2), key)
-    return np.array(vals, dtype=float).reshape(ks, order="F")
+    arr = np.array(vals, dtype=float).reshape(ks, order="F")
+    if variant == "C":
+        return np.ascontiguousarray(arr)
+    if variant == "view":
+        import c04_w3
+        return c04_w3._noncontig(np, arr)
+    if variant == "int":
+        return np.ascontiguousarray(arr).astype(np.int64)
+    if variant == "list":
+        return arr.tolist()
+    return arr
+
+
+def _mk_tenmat(ttb, np, a, rd, cd):
+    import c04_w3 as W
+    mk = a.get("mk")
+    arr = tgen.np_dense(np, a["tshape"], a["data"])
+    if mk == "C":
+        return ttb.tensor(np.ascontiguousarray(arr)).to_tenmat(rd, cd)
+    M0 = tgen.mk_tensor(ttb, np, a["tshape"], a["data"]).to_tenmat(rd, cd)
+    ts = tuple(a["tshape"])
+    if mk == "direct_C":
+        return ttb.tenmat(np.ascontiguousarray(M0.data), rd, cd, ts)
+    if mk == "direct_C_nocopy":
+        return ttb.tenmat(np.ascontiguousarray(M0.data), rd, cd, ts, copy=False)
+    if mk == "direct_F_nocopy":
+        return ttb.tenmat(np.asfortranarray(M0.data.copy()), rd, cd, ts, copy=False)
+    if mk == "direct_view":
+        return ttb.tenmat(W._noncontig(np, M0.data), rd, cd, ts, copy=False)
+    if mk == "from_read":           # the matrix is the array returned by reading another tenmat
+        return ttb.tenmat(M0[:, :], rd, cd, ts, copy=False)
+    return M0
+
+
+def _mk_sptenmat(ttb, np, a, rd, cd):
+    mk = a.get("mk")
+    ts = tuple(a["tshape"])
+    if mk == "nocopy":
+        s = np.array(a["subs"], dtype=int).reshape((len(a["subs"]), len(ts)))
+        v = np.array(a["vals"], dtype=float).reshape((len(a["vals"]), 1))
+        return ttb.sptensor(np.asfortranarray(s), v, ts, copy=False).to_sptenmat(rd, cd)
+    M0 = tgen.mk_sptensor(ttb, np, a["tshape"], a["subs"], a["vals"]).to_sptenmat(rd, cd)
+    if mk in ("direct", "direct_rev", "direct_view") and np.asarray(M0.subs).size:
+        s = np.asarray(M0.subs).reshape((-1, 2)).copy()
+        v = np.asarray(M0.vals).reshape((-1, 1)).copy()
+        if mk == "direct_rev":
+            s, v = s[::-1], v[::-1]
+        if mk == "direct_view":
+            bs = np.zeros((2 * len(s), 4), dtype=int)
+            bs[::2, ::2] = s
+            bv = np.full((2 * len(v), 2), 9.0)
+            bv[::2, :1] = v
+            s, v = bs[::2, ::2], bv[::2, :1]
+        return ttb.sptenmat(s, v, rd, cd, ts, copy=(mk == "direct"))
+    if mk == "computed":            # the sptensor behind it arises from a computation with exact cancellation
+        S = tgen.mk_sptensor(ttb, np, a["tshape"], a["subs"], a["vals"])
+        E = ttb.sptensor(np.zeros((1, len(ts)), dtype=int), np.array([[2.0]]), ts)
+        return ((S + E) - E).to_sptenmat(rd, cd)
+    return M0
 
 
 def run_extra(c):
@@ -204,13 +370,13 @@ def run_extra(c):
             return {"exc": type(ex).__name__ + ": " + str(ex)[:160]}
     rd, cd = np.array(a["rdims"], dtype=int), np.array(a["cdims"], dtype=int)
     if c.op == "tenmat_rw":
-        M = tgen.mk_tensor(ttb, np, a["tshape"], a["data"]).to_tenmat(rd, cd)
+        M = _mk_tenmat(ttb, np, a, rd, cd)
 
         def state():
             return {"shape": [int(d) for d in M.data.shape], "data": [tgen.exact(x) for x in M.data.ravel(order="F")],
                     "meta": [[int(x) for x in M.rindices], [int(x) for x in M.cindices], [int(x) for x in M.tshape]]}
     else:
-        M = tgen.mk_sptensor(ttb, np, a["tshape"], a["subs"], a["vals"]).to_sptenmat(rd, cd)
+        M = _mk_sptenmat(ttb, np, a, rd, cd)
 
         def state():
             subs = np.asarray(M.subs)
@@ -220,6 +386,7 @@ def run_extra(c):
                     "meta": [[int(x) for x in M.rdims], [int(x) for x in M.cdims], [int(x) for x in M.tshape]]}
     start = state()
     steps = []
+    last = None
     for op in a["ops"]:
         out, exc = None, None
         try:
@@ -227,10 +394,18 @@ def run_extra(c):
                 warnings.simplefilter("ignore")
                 pk = U.py_key(np, copy.deepcopy(op[1]))
                 if op[0] == "get":
-                    out = _obs_mat_out(np, M[pk])
+                    res = M[pk]
+                    out = _obs_mat_out(np, res)
+                    last = (res, out)
                 else:
-                    M[pk] = _mat_rhs(np, start["shape"], op[1], op[2], c.op == "sptenmat_set")
+                    rv = op[3] if len(op) > 3 else None
+                    if (rv == "prev" and last is not None and last[1][0] == "dense" and op[2][0] == "values"
+                            and last[1][2] == list(op[2][1]) and tuple(last[1][1]) == tuple(U.kept_shape_of(tuple(start["shape"]), op[1]))):
+                        M[pk] = last[0]
+                    else:
+                        M[pk] = _mat_rhs(np, start["shape"], op[1], op[2], c.op == "sptenmat_set", rv)
                     out = ["none"]
+                    last = None
         except Exception as ex:      # noqa: BLE001
             exc = type(ex).__name__ + ": " + str(ex)[:120]
         try:
@@ -390,30 +565,12 @@ def oracle_extra(c, o):
 # ------------------------------------------------------------------------------------------------
 # findings on sptenmat.__setitem__ (new in wave 2)
 # ------------------------------------------------------------------------------------------------
-def _has_zero(op):
-    return op[0] == "set" and ((op[2][0] == "scalar" and op[2][1] == 0) or (op[2][0] == "values" and any(v == 0 for v in op[2][1])))
+def trig_n14(case):
+    """sptenmat assignment through a key list that repeats an index"""
+    return case.op == "sptenmat_set" and any(op[0] == "set" and U.key_repeats(op[1]) for op in case.args["ops"])
 
 
-def trig_n08(case):
-    """sptenmat assignment of a zero value"""
-    return case.op == "sptenmat_set" and any(_has_zero(op) for op in case.args["ops"])
-
-
-def trig_n09(case):
-    """sptenmat assignment through a negative or out-of-range integer subscript"""
-    if case.op != "sptenmat_set":
-        return False
-    a = case.args
-    r = math.prod(a["tshape"][m] for m in a["rdims"])
-    c = math.prod(a["tshape"][m] for m in a["cdims"])
-    for op in a["ops"]:
-        for e, d in zip(op[1][1], (r, c)):
-            if (e[0] == "i" and not 0 <= e[1] < d) or (e[0] == "l" and any(not 0 <= z < d for z in e[1])):
-                return True
-    return False
-
-
-TRIGGERS_EXTRA = {"C04-N08": trig_n08, "C04-N09": trig_n09}
+TRIGGERS_EXTRA = {"C04-N14": trig_n14}        # C04-N08 / C04-N09 are repaired in /repo: their input classes are ordinary, their witnesses regression cases
 
 _SPT = {"tshape": [2, 2, 2], "rdims": [0], "cdims": [1, 2], "subs": [[0, 0, 0], [1, 0, 1], [1, 1, 1]], "vals": [1, 3, 2]}
 REGRESSION_EXTRA = {
@@ -430,4 +587,5 @@ def _witness(args):
     return run
 
 
-WITNESSES_EXTRA = {fid: _witness(a) for fid, a in REGRESSION_EXTRA.items()}
+WITNESS_N14 = dict(_SPT, ops=[["set", ["region", [["l", [1, 1]], ["i", 1]]], ["values", [6, 8]]]])
+WITNESSES_EXTRA = {"C04-N14": _witness(WITNESS_N14)}
